@@ -87,6 +87,9 @@ def chart_spec(draw, max_states=12, max_sigs=4, with_guards=True, with_actions=F
     "entry": flags(), "exit": flags(), "initc": flags(),
     "spy": draw(st.booleans()) if spy is None else spy,
     "acts": {},
+    # how the state functions are written: module-level style functions, or methods of a helper
+    # object (every mention of such a state - self.vs3 - makes a NEW bound-method object)
+    "style": draw(st.sampled_from(["function", "function", "function", "bound"])),
   }
   if with_actions:
     spec["acts"] = draw(actions_for(spec))
@@ -349,6 +352,21 @@ def build(spec, decorate=None, on_action=None, budget=30):
     handler.__qualname__ = state_name(i)
     return handler
 
+  if spec.get("style") == "bound" and not decorate and not spec.get("names"):
+    # undecorated state functions written as methods of a helper object
+    class VfStates:
+      pass
+    holder = VfStates()
+    for i in range(spec["n"]):
+      h = make(i)
+      rt.inner.append(h)
+
+      def as_method(self_, chart, e, _h=h):
+        return _h(chart, e)
+      as_method.__name__ = as_method.__qualname__ = state_name(i)
+      setattr(VfStates, state_name(i), as_method)
+    rt.fns = fns = FreshBound(holder, [state_name(i) for i in range(spec["n"])])
+    return rt
   for i in range(spec["n"]):
     h = make(i)
     rt.inner.append(h)
@@ -360,6 +378,23 @@ def build(spec, decorate=None, on_action=None, budget=30):
     else:
       fns.append(deco(h) if decorate else h)
   return rt
+
+
+class FreshBound:
+  """A list-like view of a helper object's state methods: every access makes a new bound method,
+  as `self.vs3` does in user code."""
+
+  def __init__(self, holder, names):
+    self.holder, self.names = holder, names
+
+  def __getitem__(self, i):
+    return getattr(self.holder, self.names[i])
+
+  def __len__(self):
+    return len(self.names)
+
+  def __iter__(self):
+    return (self[i] for i in range(len(self.names)))
 
 
 def passthrough(fn):
